@@ -441,6 +441,11 @@ def run(prog, ctx):
     res.rule("C07.I", n_i, 3, "probe index used before the map can be reallocated")
     # ---------------- C07.N a decision taken after an insertion looks at the count after it (common.stale_count_decisions)
     C.stale_count_rule(res, prog, "C07.N", "frequencies::", "frequent-items map")
+    # ---------------- C07.Z a table and the recorded log2 of its size change together: no callee sees one without the other
+    n_z = 0
+    n_z += C.coupled_store_rule(res, prog, "C07.Z", "frequencies::reverse_purge_item_hash_map::ReversePurgeItemHashMap", "keys", "lg_length")
+    n_z += C.coupled_store_rule(res, prog, "C07.Z", "frequencies::reverse_purge_item_hash_map::ReversePurgeItemHashMap", "states", "lg_length")
+    res.rule("C07.Z", n_z, 0, "table / size field pairs")
     res.explanation = ("structural and formula rules over the %d functions reachable from FrequentItemsSketch::{new,update_with_count,merge}: merge "
                        "conservation with its guard, bound accessor formulas, purge flow, resize-or-purge after every insertion, sizing formulas "
                        "evaluated for lg 0..=31" % len(reach))
